@@ -23,6 +23,19 @@
 // @oracle the amount after the step equals one step of the Cash-Karp fifth-order formula written from its published tableau (Cash & Karp 1990 / Numerical Recipes) applied to the same rate law: rtol 1e-12; this pins every coefficient of the tableau used by the driver
 // @stubs as C12.rk_zero_order
 // @outside step-size control beyond the first step; IEEE rounding
+// @id C12.rk_keeps_saved_state
+// @also C02
+// @engine B
+// @entry vfh_C12_rk_saved
+// @shared_state_watch
+// @tier Q
+// @opts loop_bound=40 timeout_ms=10000 budget_s=300
+// @reach rk.done
+// @funcs Phreeqc::rk_kinetics
+// @bounds the real Runge-Kutta driver for a cell that also holds an equilibrium-phase assemblage and a solid-solution assemblage; zero-order rate law (7 rates as in C12.rk_zero_order) with -runge_kutta in {1,2,3,6} and -step_divide in {1,2,0.05}, or first-order rate law (k T in [0.01,0.5], symbolic) with -runge_kutta in {3,6} and tolerance 1 (one accepted full step); optionally the k-th equilibrium solve (k in 1..3) reports a mass-balance failure so that the step is repeated with a smaller sub-step; case split
+// @oracle a kinetic step advances the reactants together with the reaction that released them: every time the driver stores the result of a sub-step (saver) the solution, the equilibrium phases and the solid solutions of the cell are stored together, and when the driver hands the cell to the closing equilibrium calculation and when it returns, all three still carry the result of the same (latest) stored sub-step - no assemblage has been rolled back to an earlier sub-step while the solution moved on
+// @stubs saver (stamps solution, equilibrium-phase and solid-solution entry of the cell with a running number), set_reaction (points the use-structure at the cell's entries, as the real one does), others as C12.rk_zero_order
+// @outside the equilibrium solve itself; CVODE (C12.cvode_restart)
 #include "Phreeqc.h"
 #include "cxxKinetics.h"
 #include "Solution.h"
@@ -45,9 +58,46 @@ int Phreeqc::calc_kinetic_reaction(cxxKinetics *kinetics_ptr, LDBLE time_step)
 	return OK;
 }
 int Phreeqc::calc_final_kinetic_reaction(cxxKinetics *kinetics_ptr) { return OK; }
-int Phreeqc::set_and_run_wrapper(int i, int use_mix, int use_kinetics, int nsaver, LDBLE step_fraction) { iterations = 1; return OK; }
-int Phreeqc::saver(void) { return OK; }
-int Phreeqc::set_reaction(int i, int use_mix, int use_kinetics) { return OK; }
+static int g_track = 0, g_stamp = 0, g_wrapper_calls = 0, g_fail_at = 0, g_closing_seen = 0, g_closing_consistent = 0;
+static bool consistent(Phreeqc *p)
+{
+	double sol = p->Rxn_solution_map[1].Get_total_h();
+	double pp = p->Rxn_pp_assemblage_map[1].Get_pp_assemblage_comps()["Calcite"].Get_moles();
+	double ss = p->Rxn_ss_assemblage_map[1].Get_SSs()["BaSr"].Get_tk();
+	return sol == (double) g_stamp && pp == (double) g_stamp && ss == (double) g_stamp;
+}
+int Phreeqc::set_and_run_wrapper(int i, int use_mix, int use_kinetics, int nsaver, LDBLE step_fraction)
+{
+	iterations = 1;
+	if (g_track)
+	{
+		/* without kinetics: the opening equilibration of the cell and the closing one after the last sub-step */
+		if (use_kinetics == FALSE) { g_closing_seen++; g_closing_consistent += consistent(this) ? 1 : 0; }
+		else if (++g_wrapper_calls == g_fail_at) return MASS_BALANCE;
+	}
+	return OK;
+}
+int Phreeqc::saver(void)
+{
+	if (g_track)
+	{
+		/* the result of the sub-step is stored: solution, equilibrium phases and solid solutions together */
+		g_stamp++;
+		Rxn_solution_map[1].Set_total_h((double) g_stamp);
+		Rxn_pp_assemblage_map[1].Get_pp_assemblage_comps()["Calcite"].Set_moles((double) g_stamp);
+		Rxn_ss_assemblage_map[1].Get_SSs()["BaSr"].Set_tk((double) g_stamp);
+	}
+	return OK;
+}
+int Phreeqc::set_reaction(int i, int use_mix, int use_kinetics)
+{
+	if (g_track)
+	{
+		use.Set_pp_assemblage_ptr(&Rxn_pp_assemblage_map[1]);
+		use.Set_ss_assemblage_ptr(&Rxn_ss_assemblage_map[1]);
+	}
+	return OK;
+}
 int Phreeqc::set_transport(int i, int use_mix, int use_kinetics, int nsaver) { return OK; }
 int Phreeqc::set_advection(int i, int use_mix, int use_kinetics, int nsaver) { return OK; }
 int Phreeqc::status(int count, const char *str, bool kinetics) { return OK; }
@@ -122,4 +172,46 @@ extern "C" void vfh_C12_rk_first(void)
 	double k6 = K * (m0 - (a61 * k1 + a62 * k2 + a63 * k3 + a64 * k4 + a65 * k5)) * h;
 	double ref = m0 - (b1 * k1 + b3 * k3 + b4 * k4 + b6 * k6);
 	vf_close("rk.cash_karp_step", m, ref, 1e-12, 1e-15);
+}
+
+extern "C" void vfh_C12_rk_saved(void)
+{
+	static const int RK[4] = {1, 2, 3, 6};
+	static const double SD[3] = {1.0, 2.0, 0.05};
+	static const double RATE[7] = {0.003, 0.05, 0.12, 0.25, 0.5, -0.05, -0.3};
+	g_track = 1;
+	g_law = (int) vf_int("rate_law_order", 0, 1);
+	int rk; double sd = 1.0, tol = 1e-8, m0, T = 1.0;
+	if (g_law == 0)
+	{
+		rk = RK[vf_int("runge_kutta", 0, 3)];
+		sd = SD[vf_int("step_divide_case", 0, 2)];
+		g_r = RATE[vf_int("rate_case", 0, 6)];
+		m0 = vf_double("m0", 0.6, 50.0);
+	}
+	else
+	{
+		rk = RK[vf_int("runge_kutta", 2, 3)];
+		g_k = vf_double("k_times_T", 0.01, 0.5); tol = 1.0;
+		m0 = vf_double("m0", 0.01, 0.09);
+	}
+	g_fail_at = (int) vf_int("failing_equilibrium_solve", 0, 3);         /* 0: none */
+	Phreeqc *p = mk(m0, rk, sd, tol);
+	new (&p->use) cxxUse();
+	cxxPPassemblage pp; pp.Set_n_user(1); pp.Set_n_user_end(1);
+	cxxPPassemblageComp pc; pc.Set_name("Calcite"); pc.Set_moles(0.0);
+	pp.Get_pp_assemblage_comps()["Calcite"] = pc;
+	p->Rxn_pp_assemblage_map[1] = pp;
+	cxxSSassemblage ssa; ssa.Set_n_user(1); ssa.Set_n_user_end(1);
+	cxxSS ss; ss.Set_name("BaSr"); ss.Set_tk(0.0);
+	ssa.Get_SSs()["BaSr"] = ss;
+	p->Rxn_ss_assemblage_map[1] = ssa;
+	p->Rxn_solution_map[1].Set_total_h(0.0);
+	int rc = p->rk_kinetics(1, T, NOMIX, 1, 1.0);
+	vf_reach("rk.done");
+	vf_check("rk.rc", rc == OK);
+	vf_check("rk.sub_step_results_were_stored", g_stamp >= 1);
+	vf_check("rk.opening_and_closing_equilibrium", g_closing_seen == 2);
+	vf_check("rk.closing_equilibrium_sees_one_sub_step_result", g_closing_consistent == g_closing_seen);
+	vf_check("rk.returned_state_is_latest_stored_sub_step", consistent(p));
 }
